@@ -45,6 +45,12 @@ def keep_formula(prog: Program, f: FuncInfo) -> Optional[Set[str]]:
         if len(keeps) != 1:
             return None
         guards = [(g.src.ast, g.label == 'T') for g in guard_edges(cfg, keeps[0])]
+        # the kept parameter is the inspected one: the loop variable is not rewritten before it is kept
+        from ..util import assigned_names
+        body_nodes = [n for n in cfg.stmt_nodes() if n.id in cfg.reachable(h, edge_ok=lambda e: e.label != 'exhausted') and h.id in cfg.reachable(n)]
+        rew = [n for n in body_nodes if pv in assigned_names(n) and n.kind == 'stmt']
+        if rew:
+            f.__dict__['_keep_rewrites'] = [(n.line, norm(n.ast)[:80]) for n in rew]
     elif not heads:
         comps = [x for x in walk_own(f.node) if isinstance(x, (ast.ListComp, ast.GeneratorExp)) and len(x.generators) == 1
                  and 'parameters' in norm(x.generators[0].iter) and dotted(x.elt) == dotted(x.generators[0].target)]
@@ -57,6 +63,8 @@ def keep_formula(prog: Program, f: FuncInfo) -> Optional[Set[str]]:
     if guards is None or pv is None:
         return None
     conj: Set[str] = set()
+    for line_, txt_ in f.__dict__.get('_keep_rewrites', []):
+        conj.add(f'parameter-rewritten:{txt_}')
     for e, pol in guards:
         if isinstance(e, ast.Compare) and dotted(e.left) == f'{pv}.name' and isinstance(e.ops[0], (ast.In, ast.NotIn)):
             neg = isinstance(e.ops[0], ast.NotIn)
@@ -305,6 +313,9 @@ def run(ck: Check, prog: Program) -> None:
     for b in bind_methods(prog):
         before = len(ck.findings)
         _ctx_rules(ck, prog, b)
+    # the binder sees the params object exactly as sent (a member sent as null is a member)
+    from .c04 import _bind_strict
+    _bind_strict(ck, prog)
     # SIG-SOURCE
     _sig_source(ck, prog)
 
